@@ -1,0 +1,58 @@
+# -*- coding: utf-8 -*-
+"""
+pytableaux._verif
+^^^^^^^^^^^^^^^^^
+
+Verification seam, inert unless the environment variable
+``PYTABLEAUX_VERIF=1`` is set when the package is imported.
+
+When enabled, tableau nodes and branches take their hash from a seedable
+provider instead of ``id()``, and lexical items salt their hash with a
+process-independent integer instead of a class object, so that the iteration
+order of hash-based containers (the tie-break order of equally ranked rule
+targets) is reproducible and can be varied by a simulator:
+
+- ``PYTABLEAUX_VERIF_ORDER=<int>``  default order seed (0 = creation order)
+- ``PYTABLEAUX_VERIF_LEXSALT=<int>`` salt for lexical item hashes
+"""
+from __future__ import annotations
+
+import os
+
+ENABLED = os.environ.get('PYTABLEAUX_VERIF') == '1'
+LEXSALT = int(os.environ.get('PYTABLEAUX_VERIF_LEXSALT') or 0)
+
+_M64 = (1 << 64) - 1
+_state = dict(
+    seed = int(os.environ.get('PYTABLEAUX_VERIF_ORDER') or 0),
+    count = 0,
+    overrides = {})
+
+def reset(order_seed: int = 0, overrides = None) -> None:
+    "Restart the hash provider: counter to 0, new seed and overrides."
+    _state['seed'] = int(order_seed)
+    _state['count'] = 0
+    _state['overrides'] = dict(overrides or {})
+
+def count() -> int:
+    "Number of hashes handed out since the last reset."
+    return _state['count']
+
+def mix(seed: int, n: int) -> int:
+    "splitmix64 of (seed, n) folded to 61 bits; identity for seed 0."
+    if seed == 0:
+        return n
+    z = (seed * 0x9E3779B97F4A7C15 + n * 0xD1B54A32D192ED03 + 0x632BE59BD9B4E019) & _M64
+    z = ((z ^ (z >> 30)) * 0xBF58476D1CE4E5B9) & _M64
+    z = ((z ^ (z >> 27)) * 0x94D049BB133111EB) & _M64
+    z ^= z >> 31
+    return z >> 3
+
+def next_hash() -> int:
+    "The hash for the n-th object hashed since the last reset."
+    n = _state['count']
+    _state['count'] = n + 1
+    try:
+        return _state['overrides'][n]
+    except KeyError:
+        return mix(_state['seed'], n)
